@@ -360,6 +360,18 @@ func runShard(id, tier string, seed int64, shard, nshards int, cfg propCfg, work
 			from = ci + 1
 			continue
 		}
+		if strings.Contains(stderrS, "RECYCLE-EXIT") {
+			// the worker handed over to a fresh process (memory): go on with the next case
+			a.mu.Lock()
+			a.counters["workers_recycled_for_memory"]++
+			a.mu.Unlock()
+			if only >= 0 || ci < 0 {
+				return
+			}
+			fromStream = cs
+			from = ci + 1
+			continue
+		}
 		if strings.Contains(stderrS, "GUARD-EXIT") {
 			// the worker's resource guard reported the case itself and exited
 			a.mu.Lock()
